@@ -76,6 +76,9 @@ def ptr_history(rnd, first_id):
         # the pointer is a member of a fixed-size union (its members are parsed from a copy of the union's bytes - the pointer
         # still points into the stream the union came from; finding F54)
         fields = [A.field("p0", A.t_ptr(rnd.choice(tg))), A.field("raw", A.t_int(A.PTRTYPES[mode["ptr"]]))]
+        if rnd.random() < 0.4:
+            # ... or an array of pointers (seed S96: only members declared as pointers or structures were bound to the stream)
+            fields[0] = A.field("p0", A.t_arr(A.t_ptr(rnd.choice(tg)), A.L_fixed(2)))
         t = A.t_struct("PS", fields, union=True)
     defs = A.render(t)
     compiled = rnd.random() < 0.5
@@ -113,10 +116,11 @@ def ptr_history(rnd, first_id):
         data = bytearray(rnd.choice([0, 0, 1, 0x41, 0x7F, 0x80, 0xFF, rnd.randrange(256)]) for _ in range(n))
         width = mode["ptr"]
         for f, rf in zip(fields, T.__fields__):
-            if f["type"]["k"] == "ptr":
+            nel = 1 if f["type"]["k"] == "ptr" else f["type"]["len"]["n"] if (f["type"]["k"] == "arr" and f["type"]["elem"]["k"] == "ptr") else 0
+            for el in range(nel):
                 addr = rnd.choice([0, n - 1, n, n + 5, rnd.randrange(0, n), rnd.randrange(0, n), start])
                 addr = min(addr, (1 << (8 * width)) - 1)
-                off = start + (rf.offset or 0)
+                off = start + (rf.offset or 0) + el * width
                 data[off:off + width] = addr.to_bytes(width, "little" if mode["endian"] == "<" else "big")
         data = bytes(data)
         stream = codec.FaultyStream(data)      # behaves like BytesIO until a fault is armed (DerefFault below)
@@ -131,11 +135,13 @@ def ptr_history(rnd, first_id):
             return events, rid + 1
         events.append(ev)
         rid += 1
+    todo = []
     for i, (f, rf) in enumerate(zip(fields, T.__fields__)):
-        if f["type"]["k"] != "ptr":
-            continue
-        p = getattr(v, rf._name)
-        target = f["type"]["target"]
+        if f["type"]["k"] == "ptr":
+            todo.append((i, 0, getattr(v, rf._name), f["type"]["target"]))
+        elif f["type"]["k"] == "arr" and f["type"]["elem"]["k"] == "ptr":
+            todo += [(i, el + 1, getattr(v, rf._name)[el], f["type"]["elem"]["target"]) for el in range(f["type"]["len"]["n"])]
+    for i, elem, p, target in todo:
         if stream is not None and rnd.random() < 0.3:
             # the stream fails (raises) on the first read of the dereference: the position must be restored all the same, and the
             # dereference below must still give the right value
@@ -146,9 +152,9 @@ def ptr_history(rnd, first_id):
             except Exception as e:  # noqa: BLE001
                 st = "null" if status_of(e) == "null" else codec.classify_fault(e)
             stream.fault_call = None
-            events.append(dict(base, id=rid, ev="DerefFault", field=i + 1, input=list(data), obs={"status": st, "pos": stream.tell()}))
+            events.append(dict(base, id=rid, ev="DerefFault", field=i + 1, elem=elem, input=list(data), obs={"status": st, "pos": stream.tell()}))
             rid += 1
-        events.append(dict(base, id=rid, ev="Deref", field=i + 1, input=list(data), obs=observe_deref(p, target, stream)))
+        events.append(dict(base, id=rid, ev="Deref", field=i + 1, elem=elem, input=list(data), obs=observe_deref(p, target, stream)))
         rid += 1
         if rnd.random() < 0.6:
             op, n = rnd.choice(OPS), rnd.choice([0, 1, 2, 3, 4, 7, 16])
@@ -161,7 +167,7 @@ def ptr_history(rnd, first_id):
             except Exception as e:  # noqa: BLE001
                 obs = {"status": "error", "v": codec.NONE_V, "again_same": True, "pos": 0, "sameclass": False, "addr": A.pint(0),
                        "exc": f"{type(e).__name__}: {e}"[:120]}
-            events.append(dict(base, id=rid, ev="Arith", field=i + 1, op=op, n=n, input=list(data), obs=obs))
+            events.append(dict(base, id=rid, ev="Arith", field=i + 1, elem=elem, op=op, n=n, input=list(data), obs=obs))
             rid += 1
     try:
         b = {"status": "ok", "b": list(v.dumps())}
